@@ -1726,7 +1726,7 @@ else:
       setdefault.__doc__ = dict.setdefault.__doc__
       def update(self, adict, **kwds):
           if hasattr(adict,'__asdict__'): adict = adict.__asdict__()
-          elif hasattr(adict, 'copy'): adict = adict.copy()
+          elif hasattr(adict, 'keys') and hasattr(adict, 'copy'): adict = adict.copy()
           else: adict = dict(adict)
           adict.update(**kwds)
           [self.__setitem__(k,v) for (k,v) in adict.items()]
